@@ -79,6 +79,9 @@ def finish(ctx, level, coverage, assumptions):
         path = write_replay(ctx.prop, key, dict(what=v['what'], count=v['count'], replay=v['replay']))
         print('VIOLATION property=%s replay=%s' % (ctx.prop, path), flush=True)
         print('#   %s: %s (x%d)' % (key, v['what'], v['count']), flush=True)
+    if os.environ.get('VERIF_DEBUG'):
+        with open('/tmp/verif-debug-%s.json' % ctx.prop, 'w') as f:
+            json.dump({k: dict(what=v['what'], count=v['count']) for k, v in ctx.violations.items()}, f, indent=1, default=str)
     cov = dict(coverage)
     cov.setdefault('samples', [])
     ev = dict(property_id=ctx.prop, tier=ctx.tier, seed=ctx.seed, level=level, coverage=cov,
